@@ -18,7 +18,7 @@ import (
 // min-width or max-width applies.
 func c10Rerun(c *core.Check) {
 	p := c.Prog
-	r := c.Rule("R15", "re-run from the same state: for every function wrapped by handleMinMaxWidth / handleMinMaxHeight, each box field it updates from its own previous value is stored by the wrapper between two calls of the function (like the computed margins); functions that only assign fresh values need nothing", 7)
+	r := c.Rule("R15", "re-run from the same state: for every function wrapped by handleMinMaxWidth / handleMinMaxHeight, each box field it updates from its own previous value is stored by the wrapper between two calls of the function (like the computed margins); functions that only assign fresh values need nothing", 9)
 	pk := p.ByPath["html/layout"]
 	if pk == nil {
 		r.Anchor("package html/layout")
